@@ -173,6 +173,7 @@ def check(F, run, tier):
     run.add(c18.sort_before_layout(F, S)[:1])
     run.add(parallel_tables(F, S))
     run.add(c19.compare_path_filenames(F))
+    run.add(c19.get_filename_shape(F))
     lt = F.fn("OP2Utility::StringUtility::IsEqualCaseInsensitive", nparams=2)
     from ..rules_sib import symmetric_keys, lexicographic_less
     run.add(symmetric_keys(lt, "OP2Utility::StringUtility::IsEqualCaseInsensitive", expect_key="tolower"))
